@@ -46,7 +46,23 @@ def wfPid (p : PidF) : Bool :=
     decide (p.creation < 4294967296) && p.loc.isNone
 
 mutual
-/-- well-formedness: what the Rust types do not already enforce (plus: identifiers in plain form) -/
+/-- well-formedness: what the Rust types do not already enforce, plus the representable terms that the library's
+own decoder refuses or changes (each such conjunct is a restriction of the round-trip theorem, listed here):
+
+* field widths the Rust types enforce and the model's `Nat`/`Int`/`Bytes` do not: `i64` integers, `u32`/`u64`
+  identifier fields, `u32` reference words, 64-bit float patterns, `u8` arities, 16-byte `uniq`, `u32` fun indices;
+  atom names valid UTF-8 (`Atom` wraps a `String`); big-integer digit counts below 2^32 (the length field);
+* EXCLUDED although representable — sizes above the decoder's own limits: binaries/strings/bit-strings longer than
+  `MAX_BINARY_SIZE`, lists/tuples/maps with more than `MAX_LIST_SIZE`/`MAX_TUPLE_SIZE`/`MAX_MAP_SIZE` elements
+  (the encoder accepts up to `u32::MAX`, the decoder rejects: encode succeeds, decode fails);
+* EXCLUDED although representable — `BitBinary` with `bits` outside 1..8, or empty with `bits ≠ 8` (the encoder writes
+  them, the decoder rejects them);
+* EXCLUDED although representable — `InternalFun` with `num_free ≠ free_vars.len()` (the decoder reads `num_free`
+  terms), and with `old_index`/`old_uniq ≥ 2^31` (written as SMALL_BIG_EXT, which the fun decoder refuses:
+  `InternalFun{old_uniq: 0x8000_0000}` encodes and then fails to decode);
+* identifiers in plain form (`loc = none`); the LOCAL_EXT-carrying form is covered by `dec_enc_local` below.
+
+Nesting depth is a separate hypothesis (`dep t + d ≤ MAX_NESTING_DEPTH`). -/
 def wfT : Term → Bool
   | .atom a => validUtf8 a
   | .int i => decide (-9223372036854775808 ≤ i ∧ i ≤ 9223372036854775807)
@@ -76,24 +92,26 @@ def wfKV : List (Term × Term) → Bool
 end
 
 mutual
-/-- fuel that suffices to decode the encoding of a term -/
+/-- fuel that suffices to decode the encoding of a term: the decoder spends one unit per nesting level and one per
+preceding sibling, so the need is a maximum over the children, not a sum; it never exceeds the encoding's length
+(`tsz_le_length`), which is why `decode`'s `length + 1` always suffices -/
 def tsz : Term → Nat
-  | .list l => 2 + tszL l
-  | .ilist l t => 1 + tszL l + tsz t
+  | .list l => 1 + tszL l
+  | .ilist l t => 1 + max (tszL l) (tsz t)
   | .map kvs => 1 + tszKV kvs
   | .tuple l => 1 + tszL l
   | .pid _ => 2
   | .port _ _ _ _ => 2
   | .ref _ _ _ _ => 2
   | .xfun _ _ _ => 2
-  | .ifun _ _ _ _ _ _ _ _ fr => 3 + tszL fr
+  | .ifun _ _ _ _ _ _ _ _ fr => 1 + max 2 (tszL fr)
   | _ => 1
 def tszL : List Term → Nat
   | [] => 0
-  | t :: ts => 1 + tsz t + tszL ts
+  | t :: ts => 1 + max (tsz t) (tszL ts)
 def tszKV : List (Term × Term) → Nat
   | [] => 0
-  | (k, v) :: r => 1 + tsz k + tsz v + tszKV r
+  | (k, v) :: r => 1 + max (max (tsz k) (tsz v)) (tszKV r)
 end
 
 mutual
@@ -302,5 +320,712 @@ theorem dec_nil (x : Ext) (cfg : DecCfg) (r : Bytes) (fuel d : Nat) (hd : d ≤ 
   have hd' : ¬ d > MAX_NESTING_DEPTH := by omega
   rw [dec.eq_3]
   simp [hd', ownedOnlyTags]
+
+end Edp
+
+/-! ### atom cache (generic in the encoder's atom order), identifiers, funs, and the full mutual round trip -/
+namespace Edp
+
+/-- the decoder-side atom cache that corresponds to the encoder's atom order: position ↦ atom -/
+def idxFrom (k : Nat) : List Bytes → List (Nat × Bytes)
+  | [] => []
+  | a :: r => (k, a) :: idxFrom (k + 1) r
+
+def idxCache (cache : List Bytes) : List (Nat × Bytes) := idxFrom 0 cache
+
+/-- the decoder configuration fits the encoder's cache: no cache at all (any configuration), or the owned decoder
+with exactly that cache (ATOM_CACHE_REF is not in the zero-copy decoder's tag set) -/
+def cfgFor (cache : List Bytes) (cfg : DecCfg) : Prop :=
+  cache = [] ∨ (cfg.borrowed = false ∧ cfg.cache = idxCache cache)
+
+theorem cfgFor_nil (cfg : DecCfg) : cfgFor [] cfg := Or.inl rfl
+theorem cfgFor_idx (cache : List Bytes) : cfgFor cache { cache := idxCache cache } := Or.inr ⟨rfl, rfl⟩
+
+theorem indexOf?_lt (a : Bytes) (c : List Bytes) (i : Nat) (h : indexOf? a c = some i) : i < c.length := by
+  induction c generalizing i with
+  | nil => simp [indexOf?] at h
+  | cons x xs ih =>
+    simp only [indexOf?] at h
+    split at h
+    · simp at h; subst h; simp
+    · cases hx : indexOf? a xs with
+      | none => simp [hx] at h
+      | some j => simp [hx] at h; subst h; have := ih j hx; simp; omega
+
+theorem indexOf?_get (a : Bytes) (c : List Bytes) (i : Nat) (h : indexOf? a c = some i) : c[i]? = some a := by
+  induction c generalizing i with
+  | nil => simp [indexOf?] at h
+  | cons x xs ih =>
+    simp only [indexOf?] at h
+    split at h
+    · rename_i hx; simp at h; subst h; simp at hx; simp [hx]
+    · cases hx : indexOf? a xs with
+      | none => simp [hx] at h
+      | some j => simp [hx] at h; subst h; simpa using ih j hx
+
+theorem lookup_idxFrom (a : Bytes) (c : List Bytes) (k i : Nat) (h : indexOf? a c = some i) :
+    (idxFrom k c).lookup (k + i) = some a := by
+  induction c generalizing i k with
+  | nil => simp [indexOf?] at h
+  | cons x xs ih =>
+    simp only [indexOf?] at h
+    split at h
+    · rename_i hx; simp at h; subst h; simp at hx; simp [idxFrom, hx]
+    · cases hx : indexOf? a xs with
+      | none => simp [hx] at h
+      | some j =>
+        simp [hx] at h; subst h
+        have := ih (k + 1) j hx
+        have hne : (k + (j + 1) == k) = false := by simp
+        simp only [idxFrom, List.lookup, hne]
+        rw [← this]; congr 1; omega
+
+theorem lookup_idxCache (a : Bytes) (c : List Bytes) (i : Nat) (h : indexOf? a c = some i) :
+    (idxCache c).lookup i = some a := by
+  have := lookup_idxFrom a c 0 i h
+  simpa [idxCache] using this
+
+theorem enc_atomC_ok (cache : List Bytes) (a bs : Bytes) (h : encAtom cache a = .ok bs) :
+    (∃ i, indexOf? a cache = some i ∧ bs = [82, UInt8.ofNat i]) ∨
+    (indexOf? a cache = none ∧ a.length ≤ 255 ∧ bs = 119 :: be8 a.length ++ a) ∨
+    (indexOf? a cache = none ∧ 255 < a.length ∧ a.length ≤ 65535 ∧ bs = 118 :: be16 a.length ++ a) := by
+  unfold encAtom at h
+  cases hi : indexOf? a cache with
+  | some i => simp [hi] at h; exact Or.inl ⟨i, rfl, h.symm⟩
+  | none =>
+    simp only [hi] at h
+    by_cases h1 : a.length > u16max
+    · simp [h1] at h
+    · by_cases h2 : a.length > 255
+      · simp [h1, h2] at h
+        exact Or.inr (Or.inr ⟨rfl, h2, by simpa [u16max] using h1, h.symm⟩)
+      · simp [h1, h2] at h
+        exact Or.inr (Or.inl ⟨rfl, by omega, h.symm⟩)
+
+/-- an atom written by the encoder (literally, or as a reference into its cache) is read back -/
+theorem dec_atomC (x : Ext) (cfg : DecCfg) (cache : List Bytes) (a bs r : Bytes) (fuel d : Nat)
+    (hc : cfgFor cache cfg) (hlen : cache.length ≤ 256) (hu : validUtf8 a = true)
+    (h : encAtom cache a = .ok bs) (hd : d ≤ MAX_NESTING_DEPTH) :
+    dec x cfg (fuel + 1) d (bs ++ r) = .ok (.atom a, r) := by
+  have hd' : ¬ d > MAX_NESTING_DEPTH := by omega
+  rcases enc_atomC_ok cache a bs h with ⟨i, hi, rfl⟩ | ⟨_, hl, rfl⟩ | ⟨_, hl, hl2, rfl⟩
+  · rcases hc with rfl | ⟨hb, hcc⟩
+    · simp [indexOf?] at hi
+    · have hi256 : i < 256 := by have := indexOf?_lt a cache i hi; omega
+      simp only [List.cons_append, List.nil_append]
+      rw [dec.eq_3]
+      simp [hd', hb, rdU_byte i r hi256, hcc, lookup_idxCache a cache i hi]
+  · simp only [List.cons_append, List.append_assoc]
+    rw [dec.eq_3]
+    have hm : ¬ a.length > MAX_ATOM_SIZE := by simp [MAX_ATOM_SIZE]; omega
+    simp [hd', ownedOnlyTags, decAtomBody, rdU_be8 a.length (a ++ r) (by omega), hm, hu]
+  · simp only [List.cons_append, List.append_assoc]
+    rw [dec.eq_3]
+    have hm : ¬ a.length > MAX_ATOM_SIZE := by simp [MAX_ATOM_SIZE]; omega
+    simp [hd', ownedOnlyTags, decAtomBody, rdU_be16 a.length (a ++ r) (by omega), hm, hu]
+
+theorem rdWords_map (ids : List Nat) (r : Bytes) (h : ∀ i ∈ ids, i < 4294967296) :
+    rdWords ids.length ((ids.map be32).flatten ++ r) = .ok (ids, r) := by
+  induction ids with
+  | nil => simp [rdWords]
+  | cons i ids ih =>
+    have hi := h i (by simp)
+    have := ih (fun j hj => h j (by simp [hj]))
+    simp [rdWords, rdU_be32 i _ hi, this]
+
+theorem dec_port (x : Ext) (cfg : DecCfg) (cache : List Bytes) (hc : cfgFor cache cfg) (hlen : cache.length ≤ 256) (n : Bytes) (i c : Nat) (bs r : Bytes) (fuel d : Nat)
+    (hw : wfT (.port n i c none) = true)
+    (h : encPort cache n i c none = .ok bs) (hd : d + 1 ≤ MAX_NESTING_DEPTH) :
+    dec x cfg (fuel + 2) d (bs ++ r) = .ok (.port n i c none, r) := by
+  simp only [wfT, Bool.and_eq_true, decide_eq_true_eq, Option.isNone_none, and_true] at hw
+  obtain ⟨⟨hu, h1⟩, h2⟩ := hw
+  simp only [encPort] at h
+  cases ha : encAtom cache n with
+  | error e => simp [ha] at h
+  | ok ab =>
+    simp [ha] at h; subst h
+    have hd' : ¬ d > MAX_NESTING_DEPTH := by omega
+    simp only [List.cons_append, List.append_assoc]
+    rw [dec.eq_3]
+    have hat := dec_atomC x cfg cache n ab (be64 i ++ (be32 c ++ r)) fuel (d+1) hc hlen hu ha hd
+    simp [hd', ownedOnlyTags, hat, rdU_be64 _ _ h1, rdU_be32 _ _ h2]
+
+theorem dec_ref (x : Ext) (cfg : DecCfg) (cache : List Bytes) (hc : cfgFor cache cfg) (hlen : cache.length ≤ 256) (n : Bytes) (c : Nat) (ids : List Nat) (bs r : Bytes) (fuel d : Nat)
+    (hw : wfT (.ref n c ids none) = true)
+    (h : encRef cache n c ids none = .ok bs) (hd : d + 1 ≤ MAX_NESTING_DEPTH) :
+    dec x cfg (fuel + 2) d (bs ++ r) = .ok (.ref n c ids none, r) := by
+  simp only [wfT, Bool.and_eq_true, decide_eq_true_eq, Option.isNone_none, and_true, List.all_eq_true] at hw
+  obtain ⟨⟨hu, h1⟩, h2⟩ := hw
+  simp only [encRef] at h
+  by_cases hl : ids.length > u16max
+  · simp [hl] at h
+  · simp only [hl, ↓reduceIte] at h
+    cases ha : encAtom cache n with
+    | error e => simp [ha] at h
+    | ok ab =>
+      simp [ha] at h; subst h
+      have hd' : ¬ d > MAX_NESTING_DEPTH := by omega
+      have hl' : ids.length < 65536 := by simp [u16max] at hl; omega
+      simp only [List.cons_append, List.append_assoc]
+      rw [dec.eq_3]
+      have hat := dec_atomC x cfg cache n ab (be32 c ++ ((ids.map be32).flatten ++ r)) fuel (d+1) hc hlen hu ha hd
+      simp [hd', ownedOnlyTags, hat, rdU_be16 _ _ hl', rdU_be32 _ _ h1, rdWords_map ids r h2]
+
+theorem wire_small (a : Nat) (h : a < 2147483648) : wire (.int (a : Int)) = .int a := by
+  unfold wire; simp; omega
+
+theorem dec_xfun (x : Ext) (cfg : DecCfg) (cache : List Bytes) (hc : cfgFor cache cfg) (hlen : cache.length ≤ 256) (m f : Bytes) (a : Nat) (bs r : Bytes) (fuel d : Nat)
+    (hw : wfT (.xfun m f a) = true)
+    (h : enc cache (.xfun m f a) = .ok bs) (hd : d + 1 ≤ MAX_NESTING_DEPTH) :
+    dec x cfg (fuel + 2) d (bs ++ r) = .ok (.xfun m f a, r) := by
+  simp only [wfT, Bool.and_eq_true, decide_eq_true_eq] at hw
+  obtain ⟨⟨hm, hf⟩, ha⟩ := hw
+  simp only [enc] at h
+  cases hma : encAtom cache m with
+  | error e => simp [hma] at h
+  | ok mb =>
+    cases hfa : encAtom cache f with
+    | error e => simp [hma, hfa] at h
+    | ok fb =>
+      simp [hma, hfa] at h; subst h
+      have hd' : ¬ d > MAX_NESTING_DEPTH := by omega
+      simp only [List.cons_append, List.append_assoc]
+      rw [dec.eq_3]
+      have h1 := dec_atomC x cfg cache m mb (fb ++ (encInt a ++ r)) fuel (d+1) hc hlen hm hma hd
+      have h2 := dec_atomC x cfg cache f fb (encInt a ++ r) fuel (d+1) hc hlen hf hfa hd
+      have h3 := dec_int x cfg (a : Int) r fuel (d+1) (by omega) hd
+      rw [wire_small a (by omega)] at h3
+      simp [hd', ownedOnlyTags, h1, h2, h3]
+      omega
+
+theorem dec_pid (x : Ext) (cfg : DecCfg) (cache : List Bytes) (hc : cfgFor cache cfg) (hlen : cache.length ≤ 256) (p : PidF) (bs r : Bytes) (fuel d : Nat) (hw : wfPid p = true)
+    (h : encPid cache p = .ok bs) (hd : d + 1 ≤ MAX_NESTING_DEPTH) :
+    dec x cfg (fuel + 2) d (bs ++ r) = .ok (.pid p, r) := by
+  obtain ⟨node, id, serial, creation, loc⟩ := p
+  simp only [wfPid, Bool.and_eq_true, decide_eq_true_eq, Option.isNone_iff_eq_none] at hw
+  obtain ⟨⟨⟨⟨hu, h1⟩, h2⟩, h3⟩, h4⟩ := hw
+  subst h4
+  simp only [encPid] at h
+  cases ha : encAtom cache node with
+  | error e => simp [ha] at h
+  | ok ab =>
+    simp [ha] at h; subst h
+    have hd' : ¬ d > MAX_NESTING_DEPTH := by omega
+    simp only [List.cons_append, List.append_assoc]
+    rw [dec.eq_3]
+    have hat := dec_atomC x cfg cache node ab (be32 id ++ (be32 serial ++ (be32 creation ++ r))) fuel (d+1) hc hlen hu ha hd
+    simp [hd', ownedOnlyTags, hat, rdU_be32 _ _ h1, rdU_be32 _ _ h2, rdU_be32 _ _ h3]
+
+
+theorem rdU_be32_mod (n : Nat) (r : Bytes) : rdU 4 (be32 n ++ r) = .ok (n % 4294967296, r) := by
+  have h := rdU_be32 (n % 4294967296) r (Nat.mod_lt _ (by omega))
+  have e : be32 (n % 4294967296) = be32 n := by
+    unfold be32; exact (beN_mod 4 n).symm
+  rw [e] at h; exact h
+
+mutual
+theorem dec_enc (x : Ext) (cfg : DecCfg) (cache : List Bytes) (hc : cfgFor cache cfg) (hlen : cache.length ≤ 256) (t : Term) (bs r : Bytes) (fuel d : Nat)
+    (hw : wfT t = true) (hd : dep t + d ≤ MAX_NESTING_DEPTH) (he : enc cache t = .ok bs) (hf : tsz t ≤ fuel) :
+    dec x cfg fuel d (bs ++ r) = .ok (wire t, r) := by
+  match t with
+  | .atom a =>
+    simp only [tsz] at hf; obtain ⟨f, rfl⟩ : ∃ f, fuel = f + 1 := ⟨fuel - 1, by omega⟩
+    simp only [wfT] at hw; simp only [enc] at he
+    have := dec_atomC x cfg cache a bs r f d hc hlen hw he (by omega)
+    simpa [wire] using this
+  | .int i =>
+    simp only [tsz] at hf; obtain ⟨f, rfl⟩ : ∃ f, fuel = f + 1 := ⟨fuel - 1, by omega⟩
+    simp only [wfT, decide_eq_true_eq] at hw; simp only [enc, Except.ok.injEq] at he
+    subst he
+    exact dec_int x cfg i r f d hw (by omega)
+  | .float b =>
+    simp only [tsz] at hf; obtain ⟨f, rfl⟩ : ∃ f, fuel = f + 1 := ⟨fuel - 1, by omega⟩
+    simp only [wfT, decide_eq_true_eq] at hw; simp only [enc, Except.ok.injEq] at he
+    subst he
+    have := dec_float x cfg b r f d hw (by omega)
+    simpa [wire] using this
+  | .bin b =>
+    simp only [tsz] at hf; obtain ⟨f, rfl⟩ : ∃ f, fuel = f + 1 := ⟨fuel - 1, by omega⟩
+    simp only [wfT, decide_eq_true_eq] at hw; simp only [enc] at he
+    have := dec_binary x cfg b bs r f d he hw (by omega)
+    simpa [wire] using this
+  | .str b =>
+    simp only [tsz] at hf; obtain ⟨f, rfl⟩ : ∃ f, fuel = f + 1 := ⟨fuel - 1, by omega⟩
+    simp only [wfT, decide_eq_true_eq] at hw; simp only [enc] at he
+    have := dec_binary x cfg b bs r f d he hw (by omega)
+    simpa [wire] using this
+  | .bits b n =>
+    simp only [tsz] at hf; obtain ⟨f, rfl⟩ : ∃ f, fuel = f + 1 := ⟨fuel - 1, by omega⟩
+    simp only [wfT, Bool.and_eq_true, decide_eq_true_eq, Bool.or_eq_true, Bool.not_eq_true', beq_iff_eq] at hw
+    simp only [enc] at he
+    have h0 : b = [] → n = 8 := by
+      intro hb; subst hb; simpa using hw.1.2
+    have := dec_bits x cfg b bs r n f d he hw.1.1 h0 hw.2 (by omega)
+    simpa [wire] using this
+  | .big neg dg =>
+    simp only [tsz] at hf; obtain ⟨f, rfl⟩ : ∃ f, fuel = f + 1 := ⟨fuel - 1, by omega⟩
+    simp only [wfT, decide_eq_true_eq] at hw; simp only [enc, Except.ok.injEq] at he
+    subst he
+    have := dec_big x cfg neg dg r f d hw (by omega)
+    simpa [wire] using this
+  | .nil =>
+    simp only [tsz] at hf; obtain ⟨f, rfl⟩ : ∃ f, fuel = f + 1 := ⟨fuel - 1, by omega⟩
+    simp only [enc, Except.ok.injEq] at he
+    subst he
+    have := dec_nil x cfg r f d (by omega)
+    simpa [wire] using this
+  | .pid p =>
+    simp only [tsz] at hf; obtain ⟨f, rfl⟩ : ∃ f, fuel = f + 2 := ⟨fuel - 2, by omega⟩
+    simp only [wfT] at hw; simp only [enc] at he; simp only [dep] at hd
+    have := dec_pid x cfg cache hc hlen p bs r f d hw he (by omega)
+    simpa [wire] using this
+  | .port n i c l =>
+    simp only [tsz] at hf; obtain ⟨f, rfl⟩ : ∃ f, fuel = f + 2 := ⟨fuel - 2, by omega⟩
+    have hl : l = none := by
+      simp only [wfT, Bool.and_eq_true, Option.isNone_iff_eq_none] at hw; exact hw.2
+    subst hl
+    simp only [enc] at he; simp only [dep] at hd
+    have := dec_port x cfg cache hc hlen n i c bs r f d hw he (by omega)
+    simpa [wire] using this
+  | .ref n c ids l =>
+    simp only [tsz] at hf; obtain ⟨f, rfl⟩ : ∃ f, fuel = f + 2 := ⟨fuel - 2, by omega⟩
+    have hl : l = none := by
+      simp only [wfT, Bool.and_eq_true, Option.isNone_iff_eq_none] at hw; exact hw.2
+    subst hl
+    simp only [enc] at he; simp only [dep] at hd
+    have := dec_ref x cfg cache hc hlen n c ids bs r f d hw he (by omega)
+    simpa [wire] using this
+  | .xfun m fn a =>
+    simp only [tsz] at hf; obtain ⟨f, rfl⟩ : ∃ f, fuel = f + 2 := ⟨fuel - 2, by omega⟩
+    simp only [dep] at hd
+    have := dec_xfun x cfg cache hc hlen m fn a bs r f d hw he (by omega)
+    simpa [wire] using this
+  | .tuple l =>
+    simp only [tsz] at hf; obtain ⟨f, rfl⟩ : ∃ f, fuel = f + 1 := ⟨fuel - 1, by omega⟩
+    simp only [wfT, Bool.and_eq_true, decide_eq_true_eq] at hw
+    simp only [dep] at hd
+    have hd' : ¬ d > MAX_NESTING_DEPTH := by omega
+    simp only [enc] at he
+    cases hl : encL cache l with
+    | error e => simp only [hl] at he; (repeat' split at he) <;> simp at he
+    | ok lb =>
+      have ih := fun r' => decN_encL x cfg cache hc hlen l lb r' f (d + 1) hw.2 (by omega) hl (by omega)
+      by_cases h255 : l.length ≤ 255
+      · simp [hl, h255] at he; subst he
+        simp only [List.cons_append, List.append_assoc]
+        rw [dec.eq_3]
+        simp [hd', ownedOnlyTags, rdU_be8 _ _ (show l.length < 256 by omega), ih, wire]
+      · have h32 : l.length < 4294967296 := by have := hw.1; simp [MAX_TUPLE_SIZE] at this; omega
+        have hnm : ¬ l.length > u32max := by simp [u32max]; omega
+        have hnt : ¬ l.length > MAX_TUPLE_SIZE := by have := hw.1; omega
+        simp [hl, h255, hnm] at he; subst he
+        simp only [List.cons_append, List.append_assoc]
+        rw [dec.eq_3]
+        simp [hd', ownedOnlyTags, rdU_be32 _ _ h32, hnt, ih, wire]
+  | .list l =>
+    simp only [tsz] at hf; obtain ⟨f, rfl⟩ : ∃ f, fuel = f + 1 := ⟨fuel - 1, by omega⟩
+    simp only [wfT, Bool.and_eq_true, decide_eq_true_eq] at hw
+    simp only [dep] at hd
+    have hd' : ¬ d > MAX_NESTING_DEPTH := by omega
+    simp only [enc] at he
+    cases hl : encL cache l with
+    | error e =>
+      cases l with
+      | nil => simp [encL] at hl
+      | cons a l' => simp only [hl, List.isEmpty_cons, Bool.false_eq_true, ↓reduceIte] at he; (repeat' split at he) <;> simp at he
+    | ok lb =>
+      have ih := fun r' => decN_encL x cfg cache hc hlen l lb r' f (d + 1) hw.2 (by omega) hl (by omega)
+      cases l with
+      | nil =>
+        simp at he; subst he
+        have := dec_nil x cfg r f d (by omega)
+        simpa [wire] using this
+      | cons a l' =>
+        have h32 : (a :: l').length < 4294967296 := by have := hw.1; simp [MAX_LIST_SIZE] at this ⊢; omega
+        have hnm : ¬ (a :: l').length > u32max := by simp [u32max] at h32 ⊢; omega
+        have hnt : ¬ (a :: l').length > MAX_LIST_SIZE := by have := hw.1; omega
+        simp only [hl, hnm, List.isEmpty_cons, Bool.false_eq_true, ↓reduceIte, Except.ok.injEq] at he
+        subst he
+        simp only [tszL] at hf
+        obtain ⟨f', rfl⟩ : ∃ f', f = f' + 1 := ⟨f - 1, by omega⟩
+        simp only [List.cons_append, List.append_assoc]
+        rw [dec.eq_3]
+        have hn := dec_nil x cfg r f' (d + 1) (by omega)
+        simp only [List.length_cons] at ih h32 hnt
+        simp [hd', ownedOnlyTags, rdU_be32 _ _ h32, hnt, ih, hn, wire]
+  | .ilist l tl =>
+    simp only [tsz] at hf; obtain ⟨f, rfl⟩ : ∃ f, fuel = f + 1 := ⟨fuel - 1, by omega⟩
+    simp only [wfT, Bool.and_eq_true, decide_eq_true_eq] at hw
+    simp only [dep] at hd
+    have hd' : ¬ d > MAX_NESTING_DEPTH := by omega
+    have h32 : l.length < 4294967296 := by have := hw.1.1; simp [MAX_LIST_SIZE] at this ⊢; omega
+    have hnm : ¬ l.length > u32max := by simp [u32max] at h32 ⊢; omega
+    have hnt : ¬ l.length > MAX_LIST_SIZE := by have := hw.1.1; omega
+    simp only [enc, hnm, ↓reduceIte] at he
+    cases hl : encL cache l with
+    | error e => simp [hl] at he
+    | ok lb =>
+      cases ht : enc cache tl with
+      | error e => simp [hl, ht] at he
+      | ok tb =>
+        simp [hl, ht] at he; subst he
+        have ih := fun r' => decN_encL x cfg cache hc hlen l lb r' f (d + 1) hw.1.2 (by omega) hl (by omega)
+        have iht := dec_enc x cfg cache hc hlen tl tb r f (d + 1) hw.2 (by omega) ht (by omega)
+        simp only [List.cons_append, List.append_assoc]
+        rw [dec.eq_3]
+        simp only [wire]
+        cases hwt : wire tl <;>
+          simp [hd', ownedOnlyTags, rdU_be32 _ _ h32, hnt, ih, iht, hwt]
+  | .map kvs =>
+    simp only [tsz] at hf; obtain ⟨f, rfl⟩ : ∃ f, fuel = f + 1 := ⟨fuel - 1, by omega⟩
+    simp only [wfT, Bool.and_eq_true, decide_eq_true_eq] at hw
+    simp only [dep] at hd
+    have hd' : ¬ d > MAX_NESTING_DEPTH := by omega
+    have h32 : kvs.length < 4294967296 := by have := hw.1; simp [MAX_MAP_SIZE] at this ⊢; omega
+    have hnm : ¬ kvs.length > u32max := by simp [u32max] at h32 ⊢; omega
+    have hnt : ¬ kvs.length > MAX_MAP_SIZE := by have := hw.1; omega
+    simp only [enc, hnm, ↓reduceIte] at he
+    cases hl : encKV cache kvs with
+    | error e => simp [hl] at he
+    | ok lb =>
+      simp [hl] at he; subst he
+      have ih := fun r' => decKV_encKV x cfg cache hc hlen kvs lb r' f (d + 1) [] hw.2 (by omega) hl (by omega)
+      simp only [List.cons_append, List.append_assoc]
+      rw [dec.eq_3]
+      simp [hd', ownedOnlyTags, rdU_be32 _ _ h32, hnt, ih, wire]
+  | .ifun a u i nf m oi ou p fr =>
+    simp only [tsz] at hf; obtain ⟨f, rfl⟩ : ∃ f, fuel = f + 3 := ⟨fuel - 3, by omega⟩
+    simp only [wfT, Bool.and_eq_true, decide_eq_true_eq] at hw
+    obtain ⟨⟨⟨⟨⟨⟨⟨⟨⟨ha, hu⟩, hi⟩, hnf⟩, hnf32⟩, hm⟩, hoi⟩, hou⟩, hp⟩, hfr⟩ := hw
+    simp only [dep] at hd
+    have hd' : ¬ d > MAX_NESTING_DEPTH := by omega
+    simp only [enc] at he
+    cases hma : encAtom cache m with
+    | error e => simp [hma] at he
+    | ok mb =>
+      cases hpa : encPid cache p with
+      | error e => simp [hma, hpa] at he
+      | ok pb =>
+        cases hfa : encL cache fr with
+        | error e => simp [hma, hpa, hfa] at he
+        | ok fb =>
+          simp only [hma, hpa, hfa, Except.ok.injEq] at he
+          subst he
+          have ih := fun r' => decN_encL x cfg cache hc hlen fr fb r' (f + 2) (d + 1) hfr (by omega) hfa (by omega)
+          have h1 := fun r' => dec_atomC x cfg cache m mb r' (f + 1) (d + 1) hc hlen hm hma (by omega)
+          have h2 := fun r' => dec_int x cfg (oi : Int) r' (f + 1) (d + 1) (by omega) (by omega)
+          have h3 := fun r' => dec_int x cfg (ou : Int) r' (f + 1) (d + 1) (by omega) (by omega)
+          rw [wire_small oi hoi] at h2
+          rw [wire_small ou hou] at h3
+          have h4 := fun r' => dec_pid x cfg cache hc hlen p pb r' f (d + 1) hp hpa (by omega)
+          subst hnf
+          have hoi0 : ¬ ((oi : Int) < 0) := by omega
+          have hou0 : ¬ ((ou : Int) < 0) := by omega
+          simp only [List.cons_append, List.append_assoc]
+          rw [dec.eq_3]
+          simp [hd', ownedOnlyTags, rdU_be32_mod, rdU_byte a _ (by omega), takeE_of_length 16 u _ hu,
+            rdU_be32 _ _ hi, rdU_be32 _ _ hnf32, h1, h2, h3, h4, ih, wire, hoi0, hou0]
+termination_by sizeOf t
+decreasing_by all_goals (simp_wf; try omega)
+theorem decN_encL (x : Ext) (cfg : DecCfg) (cache : List Bytes) (hc : cfgFor cache cfg) (hlen : cache.length ≤ 256) (l : List Term) (bs r : Bytes) (fuel d : Nat)
+    (hw : wfL l = true) (hd : depL l + d ≤ MAX_NESTING_DEPTH) (he : encL cache l = .ok bs) (hf : tszL l ≤ fuel) :
+    decN x cfg fuel d l.length (bs ++ r) = .ok (wireL l, r) := by
+  match l with
+  | [] => simp [encL] at he; subst he; simp [decN, wireL]
+  | t :: ts =>
+    simp only [tszL] at hf; obtain ⟨f, rfl⟩ : ∃ f, fuel = f + 1 := ⟨fuel - 1, by omega⟩
+    simp only [wfL, Bool.and_eq_true] at hw
+    simp only [depL] at hd
+    simp only [encL] at he
+    cases h1 : enc cache t with
+    | error e => simp [h1] at he
+    | ok a =>
+      cases h2 : encL cache ts with
+      | error e => simp [h1, h2] at he
+      | ok b =>
+        simp [h1, h2] at he; subst he
+        have ih1 := dec_enc x cfg cache hc hlen t a (b ++ r) f d hw.1 (by omega) h1 (by omega)
+        have ih2 := decN_encL x cfg cache hc hlen ts b r f d hw.2 (by omega) h2 (by omega)
+        simp [decN, ih1, ih2, wireL]
+termination_by sizeOf l
+decreasing_by all_goals (simp_wf; try omega)
+theorem decKV_encKV (x : Ext) (cfg : DecCfg) (cache : List Bytes) (hc : cfgFor cache cfg) (hlen : cache.length ≤ 256) (kvs : List (Term × Term)) (bs r : Bytes) (fuel d : Nat)
+    (acc : List (Term × Term))
+    (hw : wfKV kvs = true) (hd : depKV kvs + d ≤ MAX_NESTING_DEPTH) (he : encKV cache kvs = .ok bs) (hf : tszKV kvs ≤ fuel) :
+    decKV x cfg fuel d kvs.length (bs ++ r) acc = .ok (insertAll acc (wireKV kvs), r) := by
+  match kvs with
+  | [] => simp [encKV] at he; subst he; simp [decKV, wireKV, insertAll]
+  | (k, v) :: ts =>
+    simp only [tszKV] at hf; obtain ⟨f, rfl⟩ : ∃ f, fuel = f + 1 := ⟨fuel - 1, by omega⟩
+    simp only [wfKV, Bool.and_eq_true] at hw
+    simp only [depKV] at hd
+    simp only [encKV] at he
+    cases h1 : enc cache k with
+    | error e => simp [h1] at he
+    | ok a =>
+      cases h2 : enc cache v with
+      | error e => simp [h1, h2] at he
+      | ok b =>
+        cases h3 : encKV cache ts with
+        | error e => simp [h1, h2, h3] at he
+        | ok c =>
+          simp [h1, h2, h3] at he; subst he
+          have ih1 := dec_enc x cfg cache hc hlen k a (b ++ (c ++ r)) f d hw.1.1 (by omega) h1 (by omega)
+          have ih2 := dec_enc x cfg cache hc hlen v b (c ++ r) f d hw.1.2 (by omega) h2 (by omega)
+          have ih3 := decKV_encKV x cfg cache hc hlen ts c r f d (mapInsert acc (wire k) (wire v)) hw.2 (by omega) h3 (by omega)
+          simp [decKV, ih1, ih2, ih3, wireKV, insertAll]
+termination_by sizeOf kvs
+decreasing_by all_goals (simp_wf; try omega)
+end
+
+end Edp
+
+/-! ### identifiers that carry preserved LOCAL_EXT bytes -/
+namespace Edp
+
+/-- the identifier without its preserved LOCAL_EXT bytes -/
+def clearLoc : Term → Term
+  | .pid p => .pid { p with loc := none }
+  | .port n i c _ => .port n i c none
+  | .ref n c ids _ => .ref n c ids none
+  | t => t
+
+def locOf : Term → Option Bytes
+  | .pid p => p.loc
+  | .port _ _ _ l => l
+  | .ref _ _ _ l => l
+  | _ => none
+
+def isIdent : Term → Bool
+  | .pid _ | .port _ _ _ _ | .ref _ _ _ _ => true
+  | _ => false
+
+theorem take_len_append (A R : Bytes) (n : Nat) (h : n = A.length) : List.take n (A ++ R) = A := by
+  subst h; simp
+
+/-- LOCAL_EXT-preserving form: an identifier that carries `loc = some (hash ++ plain)`, where `plain` is the
+encoding of its logical fields, is written as `121 :: hash ++ plain` and read back as the same term with the same `loc` -/
+theorem dec_enc_local (x : Ext) (cfg : DecCfg) (cache : List Bytes) (hc : cfgFor cache cfg) (hlen : cache.length ≤ 256)
+    (hb : cfg.borrowed = false) (t : Term) (hash plain r : Bytes) (fuel d : Nat)
+    (hid : isIdent t = true) (hh : hash.length = 8) (hw : wfT (clearLoc t) = true)
+    (hp : enc cache (clearLoc t) = .ok plain) (hl : locOf t = some (hash ++ plain))
+    (hd : d + 2 ≤ MAX_NESTING_DEPTH) :
+    enc cache t = .ok (121 :: (hash ++ plain)) ∧
+      dec x cfg (fuel + 3) d (121 :: (hash ++ plain) ++ r) = .ok (t, r) := by
+  have hd' : ¬ d > MAX_NESTING_DEPTH := by omega
+  have key := take_len_append (hash ++ plain) r (8 + plain.length) (by simp [hh])
+  simp only [List.append_assoc] at key
+  match t, hid with
+  | .pid p, _ =>
+    obtain ⟨node, id, serial, creation, loc⟩ := p
+    simp only [locOf] at hl; subst hl
+    simp only [clearLoc] at hw hp
+    have h1 := dec_enc x cfg cache hc hlen _ plain r (fuel + 2) (d + 1) hw (by simp [dep]; omega) hp (by simp [tsz])
+    refine ⟨by simp [enc, encPid], ?_⟩
+    simp only [List.cons_append, List.append_assoc]
+    rw [dec.eq_3]
+    simp [hd', hb, rdU_of_length 8 hash _ hh, h1, wire]
+    exact key
+  | .port n i c l, _ =>
+    simp only [locOf] at hl; subst hl
+    simp only [clearLoc] at hw hp
+    have h1 := dec_enc x cfg cache hc hlen _ plain r (fuel + 2) (d + 1) hw (by simp [dep]; omega) hp (by simp [tsz])
+    refine ⟨by simp [enc, encPort], ?_⟩
+    simp only [List.cons_append, List.append_assoc]
+    rw [dec.eq_3]
+    simp [hd', hb, rdU_of_length 8 hash _ hh, h1, wire]
+    exact key
+  | .ref n c ids l, _ =>
+    simp only [locOf] at hl; subst hl
+    simp only [clearLoc] at hw hp
+    have h1 := dec_enc x cfg cache hc hlen _ plain r (fuel + 2) (d + 1) hw (by simp [dep]; omega) hp (by simp [tsz])
+    refine ⟨by simp [enc, encRef], ?_⟩
+    simp only [List.cons_append, List.append_assoc]
+    rw [dec.eq_3]
+    simp [hd', hb, rdU_of_length 8 hash _ hh, h1, wire]
+    exact key
+
+end Edp
+
+/-! ### the fuel `decode` supplies (input length + 1) always suffices -/
+namespace Edp
+
+theorem tsz_pos (t : Term) : 1 ≤ tsz t := by
+  cases t <;> simp [tsz] <;> omega
+
+theorem encAtom_len (cache : List Bytes) (a bs : Bytes) (h : encAtom cache a = .ok bs) : 2 ≤ bs.length := by
+  rcases enc_atomC_ok cache a bs h with ⟨i, _, rfl⟩ | ⟨_, _, rfl⟩ | ⟨_, _, _, rfl⟩ <;> simp [be8, be16, beN_length] <;> omega
+
+theorem encInt_len (v : Int) : 2 ≤ (encInt v).length := by
+  unfold encInt; split
+  · simp
+  · split
+    · simp [be32, beN_length]
+    · simp
+
+theorem encPid_len (cache : List Bytes) (p : PidF) (bs : Bytes) (h : encPid cache p = .ok bs) (hl : p.loc = none) :
+    2 ≤ bs.length := by
+  simp only [encPid, hl] at h
+  cases ha : encAtom cache p.node with
+  | error e => simp [ha] at h
+  | ok ab => simp [ha] at h; subst h; simp [be32, beN_length]
+
+mutual
+theorem tsz_le_length (cache : List Bytes) (t : Term) (bs : Bytes) (hw : wfT t = true) (he : enc cache t = .ok bs) :
+    tsz t ≤ bs.length := by
+  match t with
+  | .atom a => simp only [enc] at he; have := encAtom_len cache a bs he; simp [tsz]; omega
+  | .int i => simp only [enc, Except.ok.injEq] at he; subst he; have := encInt_len i; simp [tsz]; omega
+  | .float b => simp only [enc, Except.ok.injEq] at he; subst he; simp [tsz]
+  | .bin b => simp only [enc, encBinary] at he; split at he <;> simp at he; subst he; simp [tsz]
+  | .str b => simp only [enc, encBinary] at he; split at he <;> simp at he; subst he; simp [tsz]
+  | .bits b n => simp only [enc, encBits] at he; split at he <;> simp at he; subst he; simp [tsz]
+  | .big neg dg => simp only [enc, Except.ok.injEq] at he; subst he; simp only [encBig, tsz]; split <;> simp
+  | .nil => simp only [enc, Except.ok.injEq] at he; subst he; simp [tsz]
+  | .pid p =>
+    simp only [enc] at he
+    have hl : p.loc = none := by simp only [wfT, wfPid, Bool.and_eq_true, Option.isNone_iff_eq_none] at hw; exact hw.2
+    have := encPid_len cache p bs he hl; simp [tsz]; omega
+  | .port n i c l =>
+    have hl : l = none := by simp only [wfT, Bool.and_eq_true, Option.isNone_iff_eq_none] at hw; exact hw.2
+    subst hl
+    simp only [enc, encPort] at he
+    cases ha : encAtom cache n with
+    | error e => simp [ha] at he
+    | ok ab => simp [ha] at he; subst he; simp [tsz, be32, be64, beN_length]
+  | .ref n c ids l =>
+    have hl : l = none := by simp only [wfT, Bool.and_eq_true, Option.isNone_iff_eq_none] at hw; exact hw.2
+    subst hl
+    simp only [enc, encRef] at he
+    split at he
+    · simp at he
+    · cases ha : encAtom cache n with
+      | error e => simp [ha] at he
+      | ok ab => simp [ha] at he; subst he; simp [tsz, be16, be32, beN_length]; omega
+  | .xfun m fn a =>
+    simp only [enc] at he
+    cases hma : encAtom cache m with
+    | error e => simp [hma] at he
+    | ok mb =>
+      cases hfa : encAtom cache fn with
+      | error e => simp [hma, hfa] at he
+      | ok fb =>
+        simp [hma, hfa] at he; subst he
+        have := encAtom_len cache m mb hma
+        simp [tsz]; omega
+  | .tuple l =>
+    simp only [wfT, Bool.and_eq_true] at hw
+    simp only [enc] at he
+    cases hl : encL cache l with
+    | error e => simp only [hl] at he; (repeat' split at he) <;> simp at he
+    | ok lb =>
+      have ih := tszL_le_length cache l lb hw.2 hl
+      simp only [hl] at he
+      (repeat' split at he) <;> simp at he <;> subst he <;> simp [tsz, be8, be32, beN_length] <;> omega
+  | .list l =>
+    simp only [wfT, Bool.and_eq_true] at hw
+    simp only [enc] at he
+    cases hl : encL cache l with
+    | error e =>
+      cases l with
+      | nil => simp [encL] at hl
+      | cons a l' => simp only [hl, List.isEmpty_cons, Bool.false_eq_true, ↓reduceIte] at he; (repeat' split at he) <;> simp at he
+    | ok lb =>
+      have ih := tszL_le_length cache l lb hw.2 hl
+      cases l with
+      | nil => simp at he; subst he; simp [tsz, tszL]
+      | cons a l' =>
+        simp only [hl, List.isEmpty_cons, Bool.false_eq_true, ↓reduceIte] at he
+        (repeat' split at he) <;> simp at he <;> subst he <;> simp [tsz, be32, beN_length] <;> omega
+  | .ilist l tl =>
+    simp only [wfT, Bool.and_eq_true] at hw
+    simp only [enc] at he
+    split at he
+    · simp at he
+    · cases hl : encL cache l with
+      | error e => simp [hl] at he
+      | ok lb =>
+        cases ht : enc cache tl with
+        | error e => simp [hl, ht] at he
+        | ok tb =>
+          have ih := tszL_le_length cache l lb hw.1.2 hl
+          have iht := tsz_le_length cache tl tb hw.2 ht
+          simp [hl, ht] at he; subst he
+          simp [tsz, be32, beN_length]; omega
+  | .map kvs =>
+    simp only [wfT, Bool.and_eq_true] at hw
+    simp only [enc] at he
+    split at he
+    · simp at he
+    · cases hl : encKV cache kvs with
+      | error e => simp [hl] at he
+      | ok lb =>
+        have ih := tszKV_le_length cache kvs lb hw.2 hl
+        simp [hl] at he; subst he
+        simp [tsz, be32, beN_length]; omega
+  | .ifun a u i nf m oi ou p fr =>
+    simp only [wfT, Bool.and_eq_true] at hw
+    simp only [enc] at he
+    cases hma : encAtom cache m with
+    | error e => simp [hma] at he
+    | ok mb =>
+      cases hpa : encPid cache p with
+      | error e => simp [hma, hpa] at he
+      | ok pb =>
+        cases hfa : encL cache fr with
+        | error e => simp [hma, hpa, hfa] at he
+        | ok fb =>
+          have ih := tszL_le_length cache fr fb hw.2 hfa
+          simp only [hma, hpa, hfa, Except.ok.injEq] at he
+          subst he
+          simp [tsz, be32, beN_length]; omega
+termination_by sizeOf t
+decreasing_by all_goals (simp_wf; try omega)
+theorem tszL_le_length (cache : List Bytes) (l : List Term) (bs : Bytes) (hw : wfL l = true) (he : encL cache l = .ok bs) :
+    tszL l ≤ bs.length + 1 := by
+  match l with
+  | [] => simp [tszL]
+  | t :: ts =>
+    simp only [wfL, Bool.and_eq_true] at hw
+    simp only [encL] at he
+    cases h1 : enc cache t with
+    | error e => simp [h1] at he
+    | ok a =>
+      cases h2 : encL cache ts with
+      | error e => simp [h1, h2] at he
+      | ok b =>
+        simp [h1, h2] at he; subst he
+        have ih1 := tsz_le_length cache t a hw.1 h1
+        have ih2 := tszL_le_length cache ts b hw.2 h2
+        have := tsz_pos t
+        simp [tszL]; omega
+termination_by sizeOf l
+decreasing_by all_goals (simp_wf; try omega)
+theorem tszKV_le_length (cache : List Bytes) (kvs : List (Term × Term)) (bs : Bytes) (hw : wfKV kvs = true)
+    (he : encKV cache kvs = .ok bs) : tszKV kvs ≤ bs.length + 1 := by
+  match kvs with
+  | [] => simp [tszKV]
+  | (k, v) :: ts =>
+    simp only [wfKV, Bool.and_eq_true] at hw
+    simp only [encKV] at he
+    cases h1 : enc cache k with
+    | error e => simp [h1] at he
+    | ok a =>
+      cases h2 : enc cache v with
+      | error e => simp [h1, h2] at he
+      | ok b =>
+        cases h3 : encKV cache ts with
+        | error e => simp [h1, h2, h3] at he
+        | ok c =>
+          simp [h1, h2, h3] at he; subst he
+          have ih1 := tsz_le_length cache k a hw.1.1 h1
+          have ih2 := tsz_le_length cache v b hw.1.2 h2
+          have ih3 := tszKV_le_length cache ts c hw.2 h3
+          have := tsz_pos k
+          have := tsz_pos v
+          simp [tszKV]; omega
+termination_by sizeOf kvs
+decreasing_by all_goals (simp_wf; try omega)
+end
 
 end Edp
